@@ -347,7 +347,8 @@ CHOICE_decode_ber(const asn_codec_ctx_t *opt_codec_ctx,
 				RETURN(RC_FAIL);
 			}
 
-			/* UNREACHABLE */
+			/* <0><non-zero> is not an end-of-contents marker */
+			RETURN(RC_FAIL);
 		}
 
 		NEXT_PHASE(ctx);
